@@ -16,7 +16,12 @@ RULE = ("same structural heads as C01 restricted to encodings the info callback 
         "accepted encoding. distinct_nontrivial = distinct accepted (prefix,opcode,second byte,payload-class).")
 ASSUMPTIONS = ["binja_test_mocks stands in for Binary Ninja", "payload bytes sampled + nibble sweeps"]
 
-SELECTOR_OPS = [0x11, 0x6C, 0x7C, 0xD6, 0xD7, 0x44, 0x45, 0x46, 0x4C, 0x4D, 0x4E, 0xED, 0xFD]
+SELECTOR_OPS = [0x11, 0x6C, 0x7C, 0xD6, 0xD7, 0x44, 0x45, 0x46, 0x4C, 0x4D, 0x4E, 0xED, 0xFD,
+                # the mode byte of the memory-indirect forms [(n)] / [(n)+-m] (00 / 80 / C0 and everything else): whatever
+                # the decoder accepts must be reproduced bit for bit
+                0x98, 0x9C, 0xB8, 0xBE, 0xF0, 0xF3, 0xF8, 0xFB,
+                # register-indirect selectors with mode nibble (all 256 second bytes) and the offset forms
+                0x90, 0xB4, 0xE0, 0xEB, 0x56, 0x5E]
 _arch = None
 
 
